@@ -147,28 +147,31 @@ class Queue(mp_Queue):
                         nwait()
                 finally:
                     nrelease()
-                try:
-                    while True:
+                while True:
+                    try:
                         obj = bpopleft()
-                        if obj is sentinel:
-                            util.debug("feeder thread got sentinel -- exiting")
-                            close()
-                            return
+                    except IndexError:
+                        # The buffer is empty: wait for new items. (Only
+                        # this IndexError ends the loop, not one raised
+                        # while an item is serialized.)
+                        break
+                    if obj is sentinel:
+                        util.debug("feeder thread got sentinel -- exiting")
+                        close()
+                        return
 
-                        # serialize the data before acquiring the lock
-                        obj_ = dumps(obj, reducers=reducers)
-                        if wacquire is None:
+                    # serialize the data before acquiring the lock
+                    obj_ = dumps(obj, reducers=reducers)
+                    if wacquire is None:
+                        send_bytes(obj_)
+                    else:
+                        wacquire()
+                        try:
                             send_bytes(obj_)
-                        else:
-                            wacquire()
-                            try:
-                                send_bytes(obj_)
-                            finally:
-                                wrelease()
-                        # Remove references early to avoid leaking memory
-                        del obj, obj_
-                except IndexError:
-                    pass
+                        finally:
+                            wrelease()
+                    # Remove references early to avoid leaking memory
+                    del obj, obj_
             except BaseException as e:
                 if ignore_epipe and getattr(e, "errno", 0) == errno.EPIPE:
                     return
